@@ -92,8 +92,14 @@ impl Fq2 {
             }
             let y2 = y.double();
             let z1 = if y.is_zero() {
-                // i^2 = -2
-                w.div2().sqrt()?
+                // here b = 0 and w = +-a, i.e. self is the real element a: its root is
+                // sqrt(a) in Fq when a is a residue, otherwise z1*i with -2*z1^2 = a (i^2 = -2)
+                if let Some(t) = a.sqrt() {
+                    y = t;
+                    Fq::zero()
+                } else {
+                    (-a).div2().sqrt()?
+                }
             } else {
                 b * y2.inverse()?
             };
